@@ -541,6 +541,16 @@ Plan plan_C09(Rng& r, const std::string& tier) {
 				if (r.chance(1, 6)) g.out.push_back(gen::mk(c, "fa_incl", {b, a, long(r.below(3)), long(r.below(2))}));
 				if (r.chance(1, 3)) g.out.push_back(gen::mk(c, "fa_incl_sim", {a, b, long(r.below(2)), long(r.chance(1, 2) ? 0 : r.below(4))}));      // with a client-supplied simulation preorder
 			}
+			if (r.chance(1, 5)) {
+				// the two operands SHARE their transition storage and differ in their final / start states only: a copy whose final or start set is changed
+				int a2 = g.n; g.out.push_back(gen::mk(c, "fa_copy", {r.chance(2, 3) ? a : b})); ++g.n; int orig = g.out.back().arg(0) == a ? a : b;
+				std::set<long> st = (orig == a ? A : B).states(); std::vector<long> sv(st.begin(), st.end()); if (sv.empty()) sv.push_back(0);
+				int kf = r.range(1, 2);
+				for (int i = 0; i < kf; ++i) { if (r.chance(2, 3)) g.out.push_back(gen::mk(c, "fa_final", {a2, r.pick(sv)})); else g.out.push_back(gen::mk(c, "fa_start", {a2, r.pick(sv), long(r.below(3))})); }
+				g.out.push_back(gen::mk(c, "fa_incl", {a2, orig, long(r.below(3)), long(r.below(2))}));
+				g.out.push_back(gen::mk(c, "fa_incl", {orig, a2, long(r.below(3)), long(r.below(2))}));
+				if (r.chance(1, 2)) g.out.push_back(gen::mk(c, "fa_incl_all", {a2, orig, long(r.below(100000))}));
+			}
 			if (r.chance(1, 4)) {
 				// an operand that is the RESULT of an earlier operation (mirror image, union, trimming), not a freshly loaded automaton
 				int src = r.chance(1, 2) ? a : b, x = g.n;
